@@ -23,7 +23,6 @@ import (
 	"fmt"
 	"go/token"
 	"go/types"
-	"math"
 	"reflect"
 	"strings"
 	"unsafe"
@@ -938,6 +937,18 @@ func ext۰reflect۰Value۰Index(fr *frame, args []value) value {
 func ext۰reflect۰Value۰Slice(fr *frame, args []value) value {
 	i := fr.i
 	r := rv(args[0])
+	// symbolic bounds: one verification condition for "in range", then a finite concretisation
+	if n, ok := rvLenForSlice(r); ok {
+		lo64, okLo := i.boundedInt(args[1], 0, int64(n))
+		hi64, okHi := i.boundedInt(args[2], 0, int64(n))
+		if !okLo || !okHi {
+			if r.kind() == reflect.String {
+				panic(strPanic(i, "reflect.Value.Slice: string slice index out of bounds"))
+			}
+			panic(strPanic(i, "reflect.Value.Slice: slice index out of bounds"))
+		}
+		args = []value{args[0], int(lo64), int(hi64)}
+	}
 	lo, hi := int(i.concInt(args[1])), int(i.concInt(args[2]))
 	switch r.kind() {
 	case reflect.String:
@@ -1008,22 +1019,20 @@ func (i *interpreter) isZeroT(t types.Type, x value) *Term {
 				return tt.not(xv.t)
 			}
 			if xv.k == types.Float64 {
-				// reflect: math.Float64bits(v.Float()) == 0, i.e. +0 only
-				isz := tt.eq(xv.t, tt.fpConst(0))
-				isneg := tt.intern("fp.isNegative", boolSort, 0, "", xv.t)
-				return tt.and(isz, tt.not(isneg))
+				// reflect (Go 1.23): v.Float() == 0, so both +0 and -0 are zero
+				return tt.eq(xv.t, tt.fpConst(0))
 			}
 			return tt.eq(xv.t, tt.bvConst(0, xv.t.sort.w))
 		case symStr:
 			return tt.boolConst(len(xv.b) == 0)
 		case float64:
-			return tt.boolConst(math.Float64bits(xv) == 0)
+			return tt.boolConst(xv == 0)
 		case float32:
-			return tt.boolConst(math.Float32bits(xv) == 0)
+			return tt.boolConst(xv == 0)
 		case complex128:
-			return tt.boolConst(math.Float64bits(real(xv)) == 0 && math.Float64bits(imag(xv)) == 0)
+			return tt.boolConst(xv == 0)
 		case complex64:
-			return tt.boolConst(math.Float32bits(real(xv)) == 0 && math.Float32bits(imag(xv)) == 0)
+			return tt.boolConst(xv == 0)
 		case unsafe.Pointer:
 			return tt.boolConst(xv == nil)
 		}
@@ -1580,3 +1589,39 @@ func initReflect(i *interpreter) {
 }
 
 var _ = strings.Contains
+
+func rvLenForSlice(r rval) (int, bool) {
+	switch v := r.v.(type) {
+	case string:
+		return len(v), true
+	case symStr:
+		return len(v.b), true
+	case []value:
+		return cap(v), true
+	case array:
+		return len(v), true
+	}
+	return 0, false
+}
+
+// boundedInt returns the concrete value of v if it lies in [lo, hi] (forking over the
+// values in that range when v is symbolic); ok is false on the out-of-range side.
+func (i *interpreter) boundedInt(v value, lo, hi int64) (int64, bool) {
+	sv, isSym := v.(symV)
+	if !isSym {
+		n := asInt64(v)
+		return n, n >= lo && n <= hi
+	}
+	tt := i.tt
+	w := sv.t.sort.w
+	var in *Term
+	if kindSigned(sv.k) {
+		in = tt.and(tt.bvCmp("bvsle", tt.bvConst(uint64(lo), w), sv.t), tt.bvCmp("bvsle", sv.t, tt.bvConst(uint64(hi), w)))
+	} else {
+		in = tt.and(tt.bvCmp("bvule", tt.bvConst(uint64(lo), w), sv.t), tt.bvCmp("bvule", sv.t, tt.bvConst(uint64(hi), w)))
+	}
+	if !i.branch(in) {
+		return 0, false
+	}
+	return i.concretize(sv), true
+}
